@@ -449,6 +449,13 @@ class Translator:
             ("new_from_iter", "fn new_from_iter(iter: I) -> Self { %s_(::lexgen_util::Lexer::new_from_iter(iter)) }" % L),
         ]
         probs = []
+        # the search function every `(table ..)` guard calls (CharClass.binary_search models exactly this comparator)
+        if self.tables:
+            required.append(("%s_BINARY_SEARCH" % L,
+                             "fn %s_BINARY_SEARCH(c: char, table: &[(char, char)]) -> bool { table.binary_search_by(|(start, end)| "
+                             "match c.cmp(start) { std::cmp::Ordering::Greater => { if c <= *end { std::cmp::Ordering::Equal } "
+                             "else { std::cmp::Ordering::Less } } std::cmp::Ordering::Equal => std::cmp::Ordering::Equal, "
+                             "std::cmp::Ordering::Less => std::cmp::Ordering::Greater, }).is_ok() }" % L))
         has_switch = self.find(frag("fn switch<A>")) >= 0
         for nm, text in required:
             if nm == "switch_and_return" and not has_switch:
